@@ -21,6 +21,9 @@ func init() {
 	register(&Scenario{Name: "lossy-paced", Prop: "C09", Faulty: true, Doc: "writers and lossy + backpressured consumers run concurrently, consumer pace = schedule (stalls of tape-chosen length); writers finish, lossy streams are valid edit scripts of the consumer's own view and converge; backpressured streams lose nothing",
 		Run:  func(w *World) { lossyRun(w, false) },
 		Real: []string{"pkg/resource Value/Collection", "minibus.DropExcess", "mergeCollectionExcess"}, Stub: []string{"writer/consumer tasks"}})
+	register(&Scenario{Name: "bp-slow", Prop: "C09", Faulty: true, Doc: "Value with a backpressured consumer that keeps receiving but slowly (1-4 s of fake time between receives, discrete-event sleep) and 1-4 concurrent writers queued behind each other: no single delivery takes 5 s, so every Set must succeed, nothing may be dropped and the consumer ends on the final value",
+		Run:  bpSlowRun,
+		Real: []string{"pkg/resource Value (5 s send timeout, publish queue)", "internal/minibus"}, Stub: []string{"writer/consumer tasks", "fake clock"}})
 	register(&Scenario{Name: "bp-timeout", Prop: "C09", Faulty: true, Doc: "Value with a backpressured consumer that stops receiving after j events (abandon) and maybe cancels later; 1-2 writers; fake time advances only when nothing else can run: every Set returns, with an error exactly when 5 s of fake time passed inside the call",
 		Run:  bpTimeoutRun,
 		Real: []string{"pkg/resource Value (5 s send timeout)", "internal/minibus"}, Stub: []string{"writer/consumer tasks", "fake clock"}})
@@ -318,6 +321,97 @@ func bpTimeoutRun(w *World) {
 					w.Violate("spurious-failure", "write failed although the consumer keeps receiving: "+c.h.String(), nil)
 				}
 			}
+		}
+	}
+	s.cancel()
+	w.Run()
+}
+
+// bpSlowRun: a slow but receiving backpressured consumer must never make a write fail.
+func bpSlowRun(w *World) {
+	t := w.Tape
+	cfg := resCfg{HasInitial: true, InitialVal: mm{V: 100}}
+	r := newRealRes(cfg, &simClock{}, &simRNG{})
+	ctx, cancel := context.WithCancel(context.Background())
+	s := &subscriber{name: "s0", cfg: subCfg{Backpressure: true, UpdatesOnly: t.Flag(1, 3)}, ctx: ctx, cancel: cancel}
+	s.open(r)
+	pause := time.Duration(1+t.Choose(4)) * time.Second
+	w.Go(s.name, true, func(task *Task) {
+		for {
+			task.Yield("recv")
+			if !s.recv(w) {
+				return
+			}
+			w.Fault("stall")
+			task.Sleep(pause)
+		}
+	})
+	nw := 1 + t.Choose(4)
+	var nextV int32
+	total := 0
+	type call struct {
+		h       hop
+		elapsed time.Duration
+	}
+	calls := make([][]call, nw)
+	for i := 0; i < nw; i++ {
+		i := i
+		n := 1 + t.Choose(3)
+		var ops []wop
+		for j := 0; j < n; j++ {
+			nextV++
+			total++
+			ops = append(ops, wop{Kind: opSet, Val: mm{V: nextV}})
+		}
+		w.Go(fmt.Sprintf("w%d", i), false, func(task *Task) {
+			for _, o := range ops {
+				task.Yield("op")
+				t0 := time.Now()
+				h := hop{Task: task.Name, Op: o, Inv: w.Step()}
+				h.Res = r.apply(o)
+				h.Ret = w.Step()
+				calls[i] = append(calls[i], call{h, time.Since(t0)})
+				task.Note("%s elapsed=%v", h, time.Since(t0))
+			}
+		})
+	}
+	w.SetMaxSteps(3000)
+	w.Run()
+	if !w.truncated {
+		if w.Deadlocked || len(w.Unfinished(false)) > 0 {
+			w.Violate("write-hangs", "writers did not finish although the consumer keeps receiving: "+strings.Join(w.Unfinished(true), ","), nil)
+		}
+		ok := 0
+		for i := range calls {
+			for _, c := range calls[i] {
+				switch c.h.Res.Code {
+				case codes.OK:
+					ok++
+				case codes.Aborted:
+				default:
+					w.Violate("spurious-failure", fmt.Sprintf("%s failed after %v although the consumer takes an event every %v (< 5 s)", c.h, c.elapsed, pause), map[string]any{"slow": true})
+				}
+			}
+		}
+		// nothing dropped: the consumer saw every successful write exactly once, and ends on the stored value
+		got := 0
+		seen := map[int32]int{}
+		for _, e := range s.events {
+			if !e.Seed {
+				got++
+				seen[e.New.V]++
+			}
+		}
+		for v, n := range seen {
+			if n != 1 {
+				w.Violate("duplicate-event", fmt.Sprintf("value v%d delivered %d times: %s", v, n, eventsString(s.events)), nil)
+			}
+		}
+		if got != ok {
+			w.Violate("event-dropped", fmt.Sprintf("%d writes succeeded but the backpressured consumer, which kept receiving, got %d events: %s", ok, got, eventsString(s.events)), nil)
+		}
+		if cur := r.apply(wop{Kind: opGet}); len(s.events) > 0 && cur.HasMsg && s.events[len(s.events)-1].New != cur.Msg && ok > 0 {
+			w.Violate("not-latest", fmt.Sprintf("the consumer's last event is %s, the value is %s", s.events[len(s.events)-1].New, cur.Msg), map[string]any{"resource": "value", "mode": "backpressure"})
 		}
 	}
 	s.cancel()
